@@ -134,6 +134,7 @@ def run(ctx, prop):
                     hist["units"] += 1
                     if u["rc"] != 0:
                         failed.append({"config": "javac", "unit": u["unit"], "stderr": u["stderr"][-500:]})
+            os.environ["BENCH_STALE_TARGETS"] = "1"     # headers are regenerated over longer stale files
             for ci, (cc, cxx, typed) in enumerate(configs):
                 if case.get("java_only"):
                     break
